@@ -80,34 +80,40 @@ def oracle(line, impl_line):
     if o is None or o[0] == [888888]:
         return "crashed or panicked"
     if mode == "wg_run":
-        # [ready?, wakes] per poll, then final; checked against the model; closed-form check here:
-        tokens = a[0][0] if a and a[0] else 0
-        live = tokens
+        # one row [ready, total wakes, live tokens after] per poll, until the first Ready
+        live = a[0][0] if a and a[0] else 0
         ops = a[1] if len(a) > 1 else []
         i = 0
-        wakes_expected_after_pending = False
+        last_pending_wakes = None
         for op in ops:
-            if op == 1 and live:
-                live -= 1
-                i += 1
-            elif op == 2:
+            if op == 1:
                 if live:
-                    live += 1
-                i += 1
-            elif op >= 10:
-                w = op - 10
-                ev = o[i]
-                i += 1
-                before = live
-                if w and live:
                     live -= 1
-                ready = ev[0]
-                if ready and before > 0 and not (w == 1 and before == 1):
-                    return "shutdown future completed while a token was alive"
-                if not ready and live == 0:
-                    # last token went away around this poll: a wake must have been delivered after the registration
-                    if ev[2] < 1:
-                        return "all tokens dropped, poll returned Pending, but the waker was never invoked (lost wake-up)"
+            elif op >= 10:
+                if i >= len(o):
+                    return "observation shorter than the history"
+                ready, wakes, after = o[i]
+                i += 1
+                w = op - 10
+                before = live
+                if w in (1, 2, 3, 4) and live:
+                    live -= 1
+                if after != live:
+                    return "token count %d does not match the history (%d)" % (after, live)
+                alive_at_upgrade = before - (1 if (w == 1 and before) else 0)
+                if ready and alive_at_upgrade > 0:
+                    return "the shutdown future completed while %d token(s) were alive" % alive_at_upgrade
+                if not ready and alive_at_upgrade == 0:
+                    return "the shutdown future is pending although no token is alive"
+                if ready:
+                    if last_pending_wakes is not None and wakes <= last_pending_wakes:
+                        return "the shutdown future became ready but the task registered by the last pending poll was never woken"
+                    break
+                if live == 0 and wakes < 1:
+                    return "all tokens dropped and the last poll returned Pending, but the waker was never invoked (lost wake-up)"
+                if live == 0 and last_pending_wakes is not None and wakes <= last_pending_wakes and before > 0:
+                    return "the final token drop did not wake the task registered by the latest poll"
+                last_pending_wakes = wakes
         return True
     cfg, rscript, wscript, segs, scripts = C07.decode_case(line)
     head, cons, wlog, inv, shut = C07.parse_events(o)
